@@ -48,7 +48,14 @@ const curated = ["0x10", "0X1F", "0o17", "0O17", "0b11", "0B11", "0x", "0xg", "0
   "﻿1", "1﻿", "\u00851", "　1", "᠎1", " 1", " 1", " 1", "\t\n\u000b\u000c\r 1", "１", "١", "1e1000", "-1e1000", "1e-1000", "1e400", "1e-400", "1e308", "1.8e308", "1.7976931348623157e308", "1.7976931348623158e308", "1.7976931348623159e308",
   "5e-324", "2.4703282292062327e-324", "2.4703282292062328e-324", "2.5e-324", "4.9e-324", "2.2250738585072014e-308", "2.2250738585072011e-308", "2.225073858507201e-308",
   "123456789012345678901234567890", "0.000000000000000000000000000001", "9007199254740993", "9007199254740992", "9007199254740991", "18446744073709551615", "18446744073709551616", "9223372036854775807", "9223372036854775808",
-  "1.", ".1", ".", "1.e1", ".e1", "1e1.5", "1e+5", "1e-5", "1E5", "1e+", "1e-", "1e", "1-2", "1+2", "--1", "+-1", "1..2", "1.5.3", "12px", "px12", " 7 ", "1,2", "1_000", "0.1", "0.2", "0.30000000000000004", "4.35", "0.000001", "1e21", "1e-7", "00", "01", "-0", "+0", "-0.0", "0e5", "1e00005", "1e-00005", "3.141592653589793", "2.718281828459045", "1e23", "8.5e-322", "9.999999999999999e22"];
+  "1.", ".1", ".", "1.e1", ".e1", "1e1.5", "1e+5", "1e-5", "1E5", "1e+", "1e-", "1e", "1-2", "1+2", "--1", "+-1", "1..2", "1.5.3", "12px", "px12", " 7 ", "1,2", "1_000", "0.1", "0.2", "0.30000000000000004", "4.35", "0.000001", "1e21", "1e-7", "00", "01", "-0", "+0", "-0.0", "0e5", "1e00005", "1e-00005", "3.141592653589793", "2.718281828459045", "1e23", "8.5e-322", "9.999999999999999e22",
+  // radix literals with more than 53 significant bits: correct rounding (to nearest, ties to even) of the exact value
+  "0x200000000000021", "0x200000000000011", "0x200000000000010", "0x200000000000030", "0x20000000000001", "0x1fffffffffffff8", "0x3fffffffffffff", "0x1fffffffffffff", "0x20000000000000",
+  "0xfffffffffffff800", "0xfffffffffffffbff", "0xfffffffffffffc00", "0x7ffffffffffffc00", "0x10000000000000000", "0x1000000000000001", "0x123456789abcdef01",
+  "0b1000000000000000000000000000000000000000000000000000001", "0b10000000000000000000000000000000000000000000000000000011", "0b100000000000000000000000000000000000000000000000000000101",
+  "0o400000000000000001", "0o400000000000000003", "0o777777777777777777777", "0o1000000000000000000001", "0X1FFFFFFFFFFFFF7", "0B11111111111111111111111111111111111111111111111111111",
+  "9007199254740993", "9007199254740995", "18014398509481985", "18014398509481987", "4503599627370497.5", "4503599627370496.5", "0.1e-322", "1.0000000000000002", "1.00000000000000011102230246251565404236316680908203125",
+  "1.00000000000000011102230246251565404236316680908203124", "1.00000000000000011102230246251565404236316680908203126"];
 strs = strs.concat(curated);
 let o2 = fs.createWriteStream(__dirname + '/es_num.ndjson');
 for (const s of strs) o2.write(JSON.stringify({s: cps(s), num: fl(Number(s)), pf: fl(parseFloat(s))}) + "\n");
